@@ -56,7 +56,8 @@ pub fn format_number(number: f64, thousands_separator: String, decimal_separator
     let trunc_size = trunc_part.len();
     let mut trunc_formated = String::new();
 
-    if number < 0.0 {
+    /* A value that is printed as zero has no sign: "-0" would be read back as plain zero */
+    if number < 0.0 && !formated_number.bytes().all(|digit| digit == b'0' || digit == b'.') {
         trunc_formated.push('-');
     }
 
